@@ -178,6 +178,7 @@ func (p *BezierPolynomial) Set(x []float64) {
 type BezierSpline struct {
 	tolerance float64          // tolerance for adaptive sampling
 	px, py    BezierPolynomial // x/y bezier polynomials
+	p0, p1    v2.Vec           // end points of the spline (exact)
 }
 
 // Return the function value for a given t value.
@@ -237,6 +238,8 @@ func NewBezierSpline(p []v2.Vec) *BezierSpline {
 	}
 	s.px.Set(x)
 	s.py.Set(y)
+	s.p0 = p[0]
+	s.p1 = p[len(p)-1]
 	return &s
 }
 
@@ -480,7 +483,9 @@ func (b *Bezier) Polygon() (*Polygon, error) {
 			continue
 		}
 		// Add the spline vertices
-		s.Sample(p, 0, 1, s.f0(0), s.f0(1), 0)
+		// use the exact end points: a polynomial evaluated at t=1 is only close to the
+		// end point, and a closed curve has to end exactly where it starts
+		s.Sample(p, 0, 1, s.p0, s.p1, 0)
 		if i != n-1 {
 			// drop the last vertex since it is the first vertex of the next spline
 			p.Drop()
